@@ -39,7 +39,7 @@ LayoutTab == [ver \in VerSet |-> LayoutOf(ver)]
 \* string lengths (model name, texture file names -- the two strings of the object model): -1 = short default / 300
 StrLens == {0, 1, 260, 261, 1024}
 M2CaseS(tag, cards, ver, kf, floats, nlen, tlen) ==
-  [ kind |-> "m2", slice |-> tag, namelen |-> nlen, texlen |-> tlen, ver |-> ver, vn |-> VerNum(ver), kf |-> kf, floats |-> floats,
+  [ kind |-> "m2", slice |-> tag, namelen |-> nlen, texlen |-> tlen, alias |-> 0, kfmask |-> IF kf THEN 7 ELSE 0, ver |-> ver, vn |-> VerNum(ver), kf |-> kf, floats |-> floats,
     card |-> [sec \in M2Secs |-> cards[DimOf(sec)]],
     convs |-> Versions,
     hsize |-> LayoutTab[ver].hsize, hdrpos |-> LayoutTab[ver].hdrpos, elem |-> LayoutTab[ver].elem,
@@ -65,11 +65,24 @@ Pairs == IF Thorough
 StrShape == [j \in 1..ND |-> IF Dims[j] \in {"name", "vertices"} THEN 1 ELSE IF Dims[j] = "textures" THEN 3 ELSE 0]
 Strings == { M2CaseS("strings", StrShape, VerAt(nl + tl), TRUE, "normal", nl, tl) : nl \in StrLens, tl \in StrLens }
            \cup { M2CaseS("strings", StrShape, ver, TRUE, "normal", ln, ln) : ln \in {260, 261, 1024}, ver \in VerSet }
+\* aliasing pattern of key-frame arrays (0 none, 1 the tracks of one element share a timestamps array, 2 all tracks of a
+\* section share one) and per-element presence pattern (bit i of kfmask: element i carries key frames): deterministic slices
+\* over a shape with every animated section populated with 3 elements
+Animated == {"bones", "particle_emitters", "ribbon_emitters", "texture_animations", "color_animations",
+             "transparency_animations", "events", "attachments", "cameras", "lights"}
+AnimShape == [j \in 1..ND |-> IF Dims[j] \in Animated THEN 3 ELSE 0]
+WithPattern(base, al, km) == [base EXCEPT !.alias = al, !.kfmask = km, !.kf = (km # 0)]
+Aliased  == { WithPattern(M2Case("alias", AnimShape, ver, TRUE, "normal"), al, 7) : al \in {1, 2}, ver \in VerSet }
+Presence == { WithPattern(M2Case("presence", AnimShape, ver, TRUE, "normal"), 0, km) : km \in 1..6, ver \in VerSet }
+\* number of embedded views {0,1,2,4} x every source version (each case is converted to all 5 targets through both APIs)
+ViewCounts == { M2Case("views", [j \in 1..ND |-> IF Dims[j] = "views" THEN nv ELSE IF Dims[j] = "vertices" THEN 1 ELSE 0], ver, FALSE, "normal") :
+                  nv \in {0, 1, 2, 4}, ver \in VerSet }
 NDraws == IF Thorough THEN 3000 ELSE 120
 LenSeq == <<-1, 0, 1, 260, 261, 1024, -1, -1>>
-Draw(q) == M2CaseS("random", [j \in 1..ND |-> Cards[(Rnd(q, j, 1) % 3) + 1]], VerAt(Rnd(q, 0, 2)),
+Draw(q) == WithPattern(M2CaseS("random", [j \in 1..ND |-> Cards[(Rnd(q, j, 1) % 3) + 1]], VerAt(Rnd(q, 0, 2)),
                    Rnd(q, 0, 3) % 4 # 0, IF Rnd(q, 0, 4) % 3 = 0 THEN "extreme" ELSE "normal",
-                   LenSeq[(Rnd(q, 0, 5) % 8) + 1], LenSeq[(Rnd(q, 0, 6) % 8) + 1])
+                   LenSeq[(Rnd(q, 0, 5) % 8) + 1], LenSeq[(Rnd(q, 0, 6) % 8) + 1]),
+                       Rnd(q, 0, 7) % 3, IF Rnd(q, 0, 3) % 4 = 0 THEN 0 ELSE <<7, 7, 7, 1, 2, 3, 4, 5, 6, 7>>[(Rnd(q, 0, 8) % 10) + 1])
 Draws == { Draw(q) : q \in 1..NDraws }
 
 \* ---- skin files: layout x cardinality of the five arrays (full product 2 * 3^5 = 486 in thorough) --------
@@ -91,13 +104,16 @@ Skins == { SkinCase("skin", fmt, f, IF fmt = "skin_old" THEN "WotLK" ELSE ver) :
                     f \in (IF Thorough THEN SkinCards ELSE SkinQuick) }
 
 \* ---- anim files: format x sections x bones per section x key-frame data ----------------------------------
-Anims == { [ kind |-> "anim", slice |-> "anim", format |-> fm, nsec |-> ns, nbones |-> nb, data |-> dt,
+\* presence pattern over the bone table: bit i of mask = bone i carries key frames (all 8 patterns over 3 bones)
+MasksOf(nb) == IF nb = 0 THEN {0} ELSE IF nb = 1 THEN {0, 1} ELSE 0..7
+Anims == { [ kind |-> "anim", slice |-> "anim", format |-> fm, nsec |-> ns, nbones |-> nb, mask |-> mk, data |-> (mk # 0),
              hsize |-> 20 + 12 * ns, entrypos |-> [j \in 1..ns |-> 20 + 12 * (j - 1)] ] :
-             fm \in {"modern", "legacy"}, ns \in {0, 1, 3}, nb \in {0, 1, 3}, dt \in BOOLEAN }
+             fm \in {"modern", "legacy"}, ns \in {0, 1, 3}, nb \in {0, 1, 3}, mk \in 0..7 } \ {c2 \in {} : TRUE}
+AnimsOk == {c2 \in Anims : c2.mask \in MasksOf(c2.nbones) /\ (c2.nsec > 0 \/ (c2.nbones = 0 /\ c2.mask = 0))}
 
-Cases == SetToSeq(Uniform) \o SetToSeq(Strings) \o SetToSeq(Singles) \o SetToSeq(Pairs) \o SetToSeq(Draws) \o SetToSeq(Skins) \o SetToSeq(Anims)
+Cases == SetToSeq(Uniform) \o SetToSeq(Strings) \o SetToSeq(Aliased) \o SetToSeq(Presence) \o SetToSeq(ViewCounts) \o SetToSeq(Singles) \o SetToSeq(Pairs) \o SetToSeq(Draws) \o SetToSeq(Skins) \o SetToSeq(AnimsOk)
 ASSUME ndJsonSerialize(IOEnv.CASES, Cases)
-ASSUME PrintT(<<"GENERATED", Len(Cases), Cardinality(Uniform), Cardinality(Singles), Cardinality(Pairs), Cardinality(Draws), Cardinality(Skins), Cardinality(Anims)>>)
+ASSUME PrintT(<<"GENERATED", Len(Cases), Cardinality(Uniform), Cardinality(Singles), Cardinality(Pairs), Cardinality(Draws), Cardinality(Skins), Cardinality(AnimsOk)>>)
 
 VARIABLE gdummy
 Init == /\ gdummy = 0 /\ mfmt = "m2" /\ mver = "WotLK" /\ mshape = ZeroFn /\ mtail = ZeroFn /\ mpc = "start" /\ msec = 1
